@@ -45,6 +45,7 @@ impl SwiftField for Field32A {
     where
         Self: Sized,
     {
+        super::swift_utils::require_ascii(input, "Field 32A")?;
         // Field32A format: 6!n3!a15d (date + currency + amount)
         if input.len() < 10 {
             // Minimum: 6 digits date + 3 chars currency + 1 digit amount
@@ -114,6 +115,7 @@ impl SwiftField for Field32B {
     where
         Self: Sized,
     {
+        super::swift_utils::require_ascii(input, "Field 32B")?;
         // Field32B format: 3!a15d (currency + amount)
         if input.len() < 4 {
             // Minimum: 3 chars currency + 1 digit amount
@@ -200,6 +202,7 @@ impl SwiftField for Field32C {
     where
         Self: Sized,
     {
+        super::swift_utils::require_ascii(input, "Field 32C")?;
         // Same format as Field32A
         if input.len() < 10 {
             return Err(ParseError::InvalidFormat {
@@ -267,6 +270,7 @@ impl SwiftField for Field32D {
     where
         Self: Sized,
     {
+        super::swift_utils::require_ascii(input, "Field 32D")?;
         // Same format as Field32A
         if input.len() < 10 {
             return Err(ParseError::InvalidFormat {
@@ -333,6 +337,7 @@ impl SwiftField for Field32 {
     where
         Self: Sized,
     {
+        super::swift_utils::require_ascii(input, "Field 32")?;
         // Try to determine variant based on content
         // If it starts with 6 digits (date), it's A, C, or D
         // Otherwise it's B (currency + amount only)
@@ -412,6 +417,7 @@ impl SwiftField for Field32AB {
     where
         Self: Sized,
     {
+        super::swift_utils::require_ascii(input, "Field 32AB")?;
         // Try parsing as Field32A first (has value date)
         if let Ok(field) = Field32A::parse(input) {
             return Ok(Field32AB::A(field));
@@ -474,6 +480,7 @@ impl SwiftField for Field32AmountCD {
     where
         Self: Sized,
     {
+        super::swift_utils::require_ascii(input, "Field 32AmountCD")?;
         // Both C and D variants have the same format (date + currency + amount)
         // Try to parse as Field32C first (credit)
         if let Ok(field) = Field32C::parse(input) {
